@@ -1,7 +1,8 @@
 #!/bin/bash
 # Runs every check's quick (or $1) tier, prints one line per property, validates the evidence files.
 tier="${1:-quick}"
-cd /verif
+cd "$(dirname "$0")/.."
+ROOT="$(pwd)"
 ./check build || exit 2
 for id in C01 C02 C03 C04 C05 C06 C07 C08 C09 C10 C11 C12 C13 C14 C15 C16 C17 C18; do
   s=$(date +%s.%N)
@@ -10,10 +11,10 @@ for id in C01 C02 C03 C04 C05 C06 C07 C08 C09 C10 C11 C12 C13 C14 C15 C16 C17 C1
   printf "%s rc=%d %.1fs  %s\n" $id $rc $(echo "$e - $s" | bc) "$(echo "$out" | grep "^$id tier" | cut -c1-200)"
   echo "$out" | grep -E "^VIOLATION" | head -3
 done
-python3-vt - <<'PY'
-import json,jsonschema,glob
+python3-vt - "$ROOT" <<'PY'
+import json,jsonschema,glob,sys
 sch=json.load(open('/root/.vp/EVIDENCE.schema.json'))
-for f in sorted(glob.glob('/verif/evidence/C*.json')):
+for f in sorted(glob.glob(sys.argv[1] + '/evidence/C*.json')):
     jsonschema.validate(json.load(open(f)), sch)
-print("evidence files valid:", len(glob.glob('/verif/evidence/C*.json')))
+print("evidence files valid:", len(glob.glob(sys.argv[1] + '/evidence/C*.json')))
 PY
